@@ -193,6 +193,7 @@ def check(col: Collector, tier: str):
             "fields must be concatenated with itertools.chain over every block of self._inject_blocks, no set/sorted/reversed", ib.loc)
     getattr_ok = any(isinstance(c, ast.Call) and call_name(c) == "getattr" and src(c.args[1]) == "name" for c in ast.walk(ib.node))
     col.add("C14.R3", "executor._ib_fetch", "fetches-requested-field", getattr_ok, "getattr(md, name) must read the requested field", ib.loc)
+    check_ib_fetch_verbatim(col, "C14.R3", repo)
     # blocks assigned (not appended) per translation, from the whole metadata list, filtered only by type
     aat = repo.method("executor", "apply_ast_transformations", hint="common.executor")
     assigned = [st for st in walk_no_nested(aat.node) if isinstance(st, ast.Assign) and src(st.targets[0]) == "self._inject_blocks"]
@@ -296,3 +297,15 @@ def check_r4(col: Collector, repo: Repo):
             ok = same_name and eq_false and raises and tail_true and src(lp.iter) in [a.arg for a in n.args.args]
     col.add("C14.R4", "ok_to_add_code_block", "same-name-equal-false-unequal-raise", ok,
             "must scan every earlier block: same name & equal -> False, same name & different -> ValueError, otherwise True", ok_fn.loc)
+
+
+def check_ib_fetch_verbatim(col: Collector, rule: str, repo: Repo):
+    """The field values are chained as they are: no per-value wrapper that treats lists, tuples or strings differently
+    (a tuple-valued field - what a Python AST carries where qastle text carries a list - must expand like a list)."""
+    ib = repo.method("executor", "_ib_fetch", hint="common.executor")
+    comps = [n for n in ast.walk(ib.node) if isinstance(n, (ast.ListComp, ast.GeneratorExp)) and any(src(g.iter) == "self._inject_blocks" for g in n.generators)]
+    ok = len(comps) == 1 and isinstance(comps[0].elt, ast.Call) and call_name(comps[0].elt) == "getattr"
+    typed = [src(c) for c in ast.walk(ib.node) if isinstance(c, ast.Call) and call_name(c) in ("isinstance", "type")]
+    col.add(rule, "executor._ib_fetch", "field-values-chained-as-they-are", ok and not typed,
+            f"each block's field value must be chained directly (getattr(md, name)); type-dependent wrapping {typed} makes a tuple-valued field "
+            "(Python AST) expand differently from a list-valued one (qastle text)", ib.loc)
